@@ -624,6 +624,8 @@ def drive(I, st, it, from_pos=None, one=False):
         out.append((cond, e))
         if one and cond == "always":
             break
+        if one and multi and len(out) == 1:
+            break       # an explicit loop takes the junk between two digits as one non-hex character of its own iteration
     return st, out, pos
 
 
@@ -679,6 +681,11 @@ def m_iter_next(I, st, c, args, body, t):
     if not out:
         return st, EnumV.none()
     if all(cnd == "always" for cnd, _ in out[-1:]) and len(out) == 1:
+        return st, EnumV.some(out[0][1])
+    if len(out) == 1 and out[0][0] == "many":
+        # (that the loop body does nothing for such a character - so that zero, one or many of them are the same - is
+        # C02 R02.1's loop rule)
+        I.side["junk_items"] = I.side.get("junk_items", 0) + 1
         return st, EnumV.some(out[0][1])
     # maybe-elements before a definite one: any of them could be the next item
     v = None
@@ -752,11 +759,16 @@ def m_all_any(I, st, c, args, body, t):
     st, out, pos = drive(I, st, it)
     res = True if is_all else False
     deps = frozenset()
+    parts = []
+    exact = True
     for cnd, e in out:
         st, r = I.call_value(st, args[1], [e])
         if not isinstance(r, BoolV):
             r = BoolV(None, None, deps_of(r))
         deps |= r.deps
+        parts.append(r)
+        if cnd != "always":
+            exact = False
         if is_all:
             if r.val is False and cnd == "always":
                 return st, BoolV(False)
@@ -767,7 +779,11 @@ def m_all_any(I, st, c, args, body, t):
                 return st, BoolV(True)
             if r.val is not False:
                 res = None
-    return st, BoolV(res, None, deps)
+    # over a known sequence `all` is the conjunction (and `any` the disjunction) of the element tests: branching on the
+    # result establishes every component (`!slots.contains(&0)`-style guards written with all/any)
+    undec = [p_ for p_ in parts if p_.val is None]
+    origin = ("and" if is_all else "or", tuple(undec)) if (res is None and exact and undec) else None
+    return st, BoolV(res, origin, deps)
 
 
 def m_iter_max(I, st, c, args, body, t):
